@@ -141,6 +141,7 @@ type trustCfg struct {
 	After    func(ctx context.Context, c ipfscluster.Consensus, t, u peer.ID) // Trust/Distrust calls before probing
 	TrustedT bool
 	TrustedU bool
+	Tracing  bool // cluster "enable tracing" option: the RPC server is built with a stats handler
 }
 
 var trustCfgs = []trustCfg{
@@ -152,6 +153,8 @@ var trustCfgs = []trustCfg{
 		After: func(ctx context.Context, c ipfscluster.Consensus, t, u peer.ID) { c.Trust(ctx, u) }, TrustedT: true, TrustedU: true},
 	{Name: "crdt-list[T]-then-Distrust(T)", List: func(t, u peer.ID) []peer.ID { return []peer.ID{t} },
 		After: func(ctx context.Context, c ipfscluster.Consensus, t, u peer.ID) { c.Distrust(ctx, t) }},
+	{Name: "crdt-list[T]+tracing", List: func(t, u peer.ID) []peer.ID { return []peer.ID{t} }, TrustedT: true, Tracing: true},
+	{Name: "crdt-empty-list+tracing", List: func(t, u peer.ID) []peer.ID { return nil }, Tracing: true},
 	{Name: "crdt-list[T,U]-then-Distrust(U)", List: func(t, u peer.ID) []peer.ID { return []peer.ID{t, u} },
 		After: func(ctx context.Context, c ipfscluster.Consensus, t, u peer.ID) { c.Distrust(ctx, u) }, TrustedT: true},
 }
@@ -193,7 +196,8 @@ func buildServer(ctx context.Context, t *testing.T, h host.Host, tc trustCfg, tp
 		}
 		cons = cc
 	}
-	p, err := clus.NewPeer(ctx, &clus.PeerParts{Host: h, Consensus: cons, DHT: dht})
+	p, err := clus.NewPeer(ctx, &clus.PeerParts{Host: h, Consensus: cons, DHT: dht,
+		Cfg: func(c *ipfscluster.Config) { c.Tracing = tc.Tracing }})
 	if err != nil {
 		t.Fatal(err)
 	}
